@@ -268,22 +268,36 @@ class DictStore(Store):
         return CachingChoiceLoader(children, **kw) if caching else ChoiceLoader(children)
 
 
+CWDS = (f"{simfs.ROOT}/cwdA", f"{simfs.ROOT}/cwdB")
+
+
 class FsStore(Store):
     """SimFS with one or two search paths, optional default extension, and an
     optional DictLoader fallback (ChoiceLoader[FileSystemLoader, DictLoader])."""
 
     def __init__(self, n_paths: int = 1, ext: str | None = None, with_dict: bool = False,
-                 parked: bool = False, fs: simfs.SimFS | None = None, encoding: str = "utf-8") -> None:
+                 parked: bool = False, fs: simfs.SimFS | None = None, encoding: str = "utf-8",
+                 relative: bool = False) -> None:
         super().__init__()
+        self.relative = relative
         self.kind = "fs" + (str(n_paths) if n_paths > 1 else "") + ("x" if ext else "") + (
             "+d" if with_dict else "")
         self.fs = fs or simfs.SimFS()
         self.fs.rlog = self.rlog
         self.encoding = encoding
         self.fs.encoding = encoding
-        self.roots = [f"{simfs.ROOT}/p{i}" for i in range(n_paths)]
-        for r in self.roots:
-            self.fs.mkdir(r)
+        if relative:
+            # a RELATIVE search path: what it names depends on the process working directory
+            self.roots = [f"{simfs.REL}{i}" for i in range(n_paths)]
+            if self.fs.cwd is None:
+                self.fs.cwd = CWDS[0]
+            for cwd in CWDS:
+                for r in self.roots:
+                    self.fs.mkdir(f"{cwd}/{r}")
+        else:
+            self.roots = [f"{simfs.ROOT}/p{i}" for i in range(n_paths)]
+            for r in self.roots:
+                self.fs.mkdir(r)
         self.ext = ext
         self.parked = parked
         self.dict = LoggingDict(self.rlog, "d0") if with_dict else None
@@ -304,6 +318,8 @@ class FsStore(Store):
 
     def locs(self, name: str) -> list[str]:
         out = [f"{r}/{self._fname(name)}" for r in self.roots]
+        if self.relative:
+            out = [f"{self.fs.cwd}/{x}" for x in out]
         if self.dict is not None:
             out.append(f"d0:{name}")
         return out
@@ -339,7 +355,7 @@ class FsStore(Store):
 
     def clone(self) -> "FsStore":
         c = FsStore(len(self.roots), self.ext, self.dict is not None, self.parked,
-                    fs=self.fs.clone(), encoding=self.encoding)
+                    fs=self.fs.clone(), encoding=self.encoding, relative=self.relative)
         if self.dict is not None:
             dict.update(c.dict, self.dict)
         c.set_unavailable(self.rlog.unavailable)
